@@ -66,6 +66,7 @@ var targets = []target{
 		"Message.SetNonce", "Message.HeaderBytes", "Message.Body", "IsInitHello", "IsRespHello", "IsHello", "IsPostHandshake",
 		"Session.canSend", "Session.canReceive", "Session.IsReady"}, OpaqueRecv: []string{"Session"}},
 	{Pkg: "go.brendoncarroll.net/p2p", Funcs: []string{"VecSize", "VecBytes", "PeerID.IsZero"}},
+	{Pkg: "go.brendoncarroll.net/p2p/f/x509/oids", Funcs: []string{"New", "OID.Len", "OID.At", "OID.IsZero", "OID.ASN1"}},
 	{Pkg: "golang.zx2c4.com/wireguard/replay", Funcs: []string{"Filter.Reset", "Filter.ValidateCounter"}},
 }
 
